@@ -132,6 +132,10 @@ def _configs():
                               ("a", "b"), (), {"weights": WEIGHTS})
     c["WeightedFair-3flows"] = ("fair", lambda k: WeightedFairQueue(get_flow_id=key_flow, get_weight=flow_weight),
                                 ("a", "b", "c"), (), {"weights": WEIGHTS})
+    # two flows (weights 2 and 1), unbounded: small alphabet, so the quick tier reaches the depth at which a
+    # flow has spent its credits while it and another flow are still backlogged (push x4, pop x2, peek, pop)
+    c["WeightedFair-2flows"] = ("fair", lambda k: WeightedFairQueue(get_flow_id=key_flow, get_weight=flow_weight),
+                                ("a", "b"), (), {"weights": WEIGHTS, "min_depth": 8})
     c["AdaptiveLIFO-thr2-cap3"] = ("adaptive", lambda k: AdaptiveLIFO(congestion_threshold=2, capacity=3),
                                    ("x",), (), {"thr": 2})
     c["CoDel-cap4"] = ("codel", lambda k: CoDelQueue(target_delay=1.0, interval=1.0, capacity=4, clock_func=k),
@@ -175,7 +179,7 @@ def depth_for(name, budget):
     while tot + n ** (d + 1) <= budget:
         d += 1
         tot += n ** d
-    return d
+    return max(d, CONFIGS[name][4].get("min_depth", 0))
 
 
 # ---------------------------------------------------------------------------
@@ -198,6 +202,9 @@ class World:
         self.dropped = 0
         self.purged = 0
         self.since = {}  # fairness ghost: flow f -> {flow g: served while f backlogged and unserved}
+        self.peeked = None  # (item or None,) seen by a peek() with no operation since
+        # fair kinds: set of possible round-robin states ((flow, credits), ...) - see _rr_pop
+        self.rr = {()}
         self.sig = ()  # outcome signature of the path: rejections, pop ranks, drops
         self.nontrivial = False
 
@@ -245,7 +252,11 @@ class World:
             it = cls(self.next_id, a, now + (a * SEC if kind == "deadline" else 0))
             self.next_id += 1
             res = pol.push(it)
+            self.peeked = None
             if res is True:
+                if kind == "fair" and None not in self.rr and not any(h.a == a for h in self.held):
+                    w = max(1, self.params["weights"][a])
+                    self.rr = {st + ((a, w),) for st in self.rr}  # a new flow joins the end of the round
                 self.held.append(it)
                 self.accepted += 1
                 if kind == "fair" and sum(1 for h in self.held if h.a == a) == 1:
@@ -259,17 +270,29 @@ class World:
             n_held = len(self.held)
             got = pol.pop()
             ndrop = self._drop_counter() - before_drop
+            if self.peeked is not None and self.peeked[0] is not got:
+                # QueuePolicy.peek: "Return the next item without removing it ... the next item according to the
+                # policy"; consumers (Queue.dispatch_guard) decide on the peeked item and then pop
+                v.append((f"{C}/order/peek-is-not-next-pop",
+                          f"peek() named {self.peeked[0]!r} as the next item, the pop() right after it returned "
+                          f"{got!r} (held in push order: {self.held})"))
+            self.peeked = None
+            if kind == "fair" and None not in self.rr and got is not None and any(got is h for h in self.held):
+                v += self._rr_pop(C, got)
             v += self._check_pop(C, got, ndrop, now)
             if n_held >= 2 or ndrop:
                 self.nontrivial = True
         elif op[0] == "peek":
             got = pol.peek()
+            self.peeked = (got,)
             if got is not None and not any(got is h for h in self.held):
                 v.append((f"{C}/conserve/peek-returns-item-not-held",
                           f"peek() returned {got!r} which is not held (held={self.held})"))
         elif op[0] == "tick":
+            self.peeked = None
             self.clk.t += SEC
         elif op[0] == "purge":
+            self.peeked = None
             n = pol.purge_expired()
             exp = [h for h in self.held if h.deadline_ns < self.clk.t]
             if n != len(exp):
@@ -313,6 +336,42 @@ class World:
                 heads.setdefault(i.a, i)
             return list(heads.values())  # per-flow FIFO; the share bound is checked separately
         raise AssertionError(k)
+
+    def _rr_pop(self, C, got):
+        """Exact reference of the documented (weighted) round robin: flows are visited in round order, a
+        flow is served up to ``weight`` items per visit (its credits), then goes to the back of the round with
+        fresh credits; a new flow joins the back; an emptied flow leaves (and later re-joins as new).  The
+        docstrings do not say WHEN a flow that has just spent its last credit gives up the front - at once or
+        when the next pop finds it without credits - which only matters for a flow created in between.  Both
+        readings are kept as possible states; the pop must agree with at least one."""
+        left = {}
+        for h in self.held:
+            left.setdefault(h.a, []).append(h)
+        nxt = set()
+        for st in self.rr:
+            st = list(st)
+            while st and st[0][1] == 0:  # lazily rotated flow: refill, go to the back
+                f, _c = st.pop(0)
+                st.append((f, max(1, self.params["weights"][f])))
+            if not st or st[0][0] != got.a or left[got.a][0] is not got:
+                continue
+            f, c = st[0]
+            if len(left[f]) == 1:
+                nxt.add(tuple(st[1:]))  # flow emptied: leaves the round
+            elif c - 1 > 0:
+                nxt.add(tuple([(f, c - 1)] + st[1:]))
+            else:
+                w = max(1, self.params["weights"][f])
+                nxt.add(tuple(st[1:] + [(f, w)]))  # gives up the front at once
+                nxt.add(tuple([(f, 0)] + st[1:]))  # ... or when the next pop finds it without credits
+        if not nxt:
+            v = [(f"{C}/order/not-round-robin",
+                  f"pop() served {got!r}; no reading of the documented round robin allows it here: possible "
+                  f"(flow, credits) rounds were {sorted(self.rr)} (held in push order: {self.held})")]
+            self.rr = {None}  # reference lost: stay silent for the rest of this sequence
+            return v
+        self.rr = nxt
+        return []
 
     def _check_pop(self, C, got, ndrop, now):
         v = []
@@ -418,7 +477,8 @@ class World:
     def state_key(self):
         base = self.held[0].id if self.held else 0
         return (tuple((h.id - base, h.a, h.deadline_ns - self.clk.t) for h in self.held),
-                tuple(sorted((f, tuple(sorted(c.items()))) for f, c in self.since.items())))
+                tuple(sorted((f, tuple(sorted(c.items()))) for f, c in self.since.items())),
+                tuple(sorted(map(repr, self.rr))))
 
 
 # ---------------------------------------------------------------------------
